@@ -1135,9 +1135,8 @@ func (e *Engine) conv(t_dst, t_src types.Type, x value) value {
 	if s, ok := x.(sv); ok {
 		if bd, ok := ut_dst.(*types.Basic); ok {
 			if bd.Kind() == types.String {
-				// string(rune) of a symbolic rune: ASCII only
-				e.assumeASCII(s)
-				return normStr([]value{e.convScalar(types.Uint8, s)})
+				// string(rune) of a symbolic integer: UTF-8 by length class
+				return normStr(e.utf8Encode(s))
 			}
 			return e.convScalar(bd.Kind(), s)
 		}
@@ -1229,8 +1228,7 @@ func (e *Engine) conv(t_dst, t_src types.Type, x value) value {
 				for i := range x {
 					switch c := x[i].(type) {
 					case sv:
-						e.assumeASCII(c)
-						out = append(out, e.convScalar(types.Uint8, c))
+						out = append(out, e.utf8Encode(c)...)
 					case int32:
 						for _, b := range []byte(string(c)) {
 							out = append(out, b)
